@@ -57,6 +57,17 @@ class SiteD:
     stmt: dict
 
 
+def enable_value(stmt: dict, inputs: dict) -> int:
+    """value of a call's `enable_call`: absent = 1, an input id = that input's value, or a constant
+    written in the source as {"const": 0|1, "form": "C"|"int"|"bool"} (C(v), Python int, Python bool)"""
+    e = stmt.get("enable")
+    if e is None:
+        return 1
+    if isinstance(e, dict):
+        return int(e["const"])
+    return int(inputs.get(e, 0))
+
+
 def diff_alts(p: Pos, q: Pos) -> bool:
     """different alternatives of one control structure of one module"""
     if p[0] != q[0]:
